@@ -35,13 +35,13 @@ def optstr(o):
 
 
 def lt_cases(tier, prefix='c08', extra_defs=None, checks='func', leak=False, ops=None, ns=None, opts=None, saveload_ns=None,
-             safety_owner='C11', timeout=None, thin_unique=False):
+             safety_owner='C11', timeout=None, thin3=False):
     """one query per (operation, variant, number of nodes, option combination)"""
     q = tier == 'quick'
     out = []
     ns = ns if ns is not None else ([0, 1, 2, 3] if q else [0, 1, 2, 3, 4])
     opts = opts if opts is not None else list(range(16))
-    timeout = timeout or (600 if q else 1200)
+    timeout = timeout or (600 if q else 1800)  # generous: concurrent SAT processes slow each other down several-fold on this machine
     for op in (ops or [o for o in OPS]):
         code, variants = OPS[op]
         for (var, sfx) in variants:
@@ -53,8 +53,8 @@ def lt_cases(tier, prefix='c08', extra_defs=None, checks='func', leak=False, ops
                 nlist = ns
             for n in nlist:
                 for o in opts:
-                    if thin_unique and n >= 3 and op not in ('PUT', 'CTOR', 'SAVELOAD') and (o & 1):
-                        continue  # quick tier: only put() reads the UNIQUE switch; a UNIQUE pre-state is a special case of the non-UNIQUE one (thorough runs all 16)
+                    if thin3 and n >= 3 and op != 'SAVELOAD' and o not in (0, 5, 10, 15):
+                        continue  # quick tier: at 3 nodes only four option combinations (every bit both ways); thorough runs all 16
                     d = {'VF_OP': code, 'VF_N': n, 'VF_VAR': var, 'VF_OPTS': o}
                     d.update(extra_defs or {})
                     uw = n + 7
@@ -64,8 +64,9 @@ def lt_cases(tier, prefix='c08', extra_defs=None, checks='func', leak=False, ops
                         uw = 16
                         uws = {'qlisttbl_load.1': n + 3, 'qlisttbl_save.0': n + 2, 'vf_qfile_load.0': 42, 'qlisttbl_clear.0': n + 2, 'qlisttbl_remove.0': 2}
                     out.append(Case('%s.lt.%s%s.n%d.o%d' % (prefix, op, sfx, n, o), 'listtbl.c', d, unwind=uw, unwindset=uws,
-                                    checks=checks, leak=leak, timeout=timeout, funcs=FUNCS[op], safety_owner=safety_owner,
-                                    mem_gb=8 if op == 'SAVELOAD' else 4,
+                                    checks=checks, leak=leak, funcs=FUNCS[op], safety_owner=safety_owner,
+                                    timeout=timeout * 2 if op == 'SAVELOAD' else timeout + 10 * n,  # the engine starts the cases with the largest timeout first
+                                    mem_gb=3.5, object_bits=10 if n >= 4 else None,
                                     desc='list table %s%s from any valid %d-entry state, options %s: names (1-2 chars over {a,A,b}), values, hash table, argument name/value/flags symbolic'
                                          % (op, sfx, n, optstr(o))))
     return out
@@ -81,7 +82,7 @@ def cases(tier, mode='func'):
     """mode: func (C08) | safety (C11) | copy (C12) | lock (C14) | allocfail (C15)"""
     q = tier == 'quick'
     if mode == 'func':
-        out = lt_cases(tier, ops=[o for o in OPS if o != 'SAVELOAD'], thin_unique=q)
+        out = lt_cases(tier, ops=[o for o in OPS if o != 'SAVELOAD'], thin3=q)
         if q:
             out += lt_cases(tier, ops=['SAVELOAD'], saveload_ns=[0, 1])
             out += lt_cases(tier, ops=['SAVELOAD'], saveload_ns=[2], opts=[0, 4, 11])
@@ -134,10 +135,11 @@ def cases(tier, mode='func'):
 def info(tier):
     q = tier == 'quick'
     return {'container': 'list table (qlisttbl.c)',
-            'bounds': 'pre-state of %s entries (one query per count), names 1..2 characters over {a,A,b} (lengths symbolic), values 1..2 symbolic bytes (putint argument -9..99; putstr strings of length 0..2), '
+            'bounds': 'pre-state of %s entries (one query per count%s), names 1..2 characters over {a,A,b} (lengths symbolic), values 1..2 symbolic bytes (putint argument -9..99; putstr strings of length 0..2), '
                       'argument name 1..2 characters over the same alphabet or NULL; the four options UNIQUE/CASEINSENSITIVE/INSERTTOP/LOOKUPFORWARD are a per-query constant (all 16 combinations enumerated; '
                       'symbolic option bits cost 20-60x); save/load: %s entries, string values of length 0..2 over all non-NUL bytes, separator "=", encode/decode on; allocation-failure position is a per-query constant'
-                      % (('0..3', '0..2 (2 entries for options default, INSERTTOP, UNIQUE+CASEINSENSITIVE+LOOKUPFORWARD)') if q else ('0..4', '0..2 under all 16 combinations')),
+                      % (('0..3', '; 3 entries under the 4 option combinations none/UNIQUE+INSERTTOP/CASEINSENSITIVE+LOOKUPFORWARD/all', '0..2 (2 entries only for options default, INSERTTOP, UNIQUE+CASEINSENSITIVE+LOOKUPFORWARD)') if q
+                         else ('0..4', '', '0..2 (all 16 combinations)')),
             'prestate': 'every doubly linked list of n nodes with first/last/num consistent, each node holding a private name, a private value of size>=1 and hash == H(name) for the stubbed hash function H; '
                         'duplicate and case-variant names anywhere unless UNIQUE, where no two names are equal under the table comparison. Reachable: the options never change after construction, so on an empty table '
                         'put() of the entries in list order (reverse order with INSERTTOP) produces exactly this list (a UNIQUE table with pairwise different keys never replaces), and insertobj() stores H(name)',
